@@ -1,7 +1,7 @@
 #!/usr/bin/env python3
 """Run every check against every seeded change (and the fix reverts in selftest/), each in its own scratch worktree of /repo
 under /tmp (removed afterwards), in parallel. Writes seeded/RESULTS.json and prints the detection matrix.
-usage: run_seeded.py [--jobs N] [--only id,id] [--checks C01,C02]"""
+usage: run_seeded.py [--jobs N] [--only id,id] [--checks C01,C02] [--tier quick|thorough]"""
 import json
 import os
 import shutil
@@ -17,7 +17,7 @@ def sh(cmd, **kw):
     return subprocess.run(cmd, shell=True, stdout=subprocess.PIPE, stderr=subprocess.STDOUT, text=True, **kw)
 
 
-def run_one(name, patch, checks):
+def run_one(name, patch, checks, tier="quick"):
     wt = "/tmp/wt/seedrun_" + name
     out = "/tmp/wt/seedout_" + name
     sh("git -C /repo worktree remove --force %s" % wt)
@@ -31,7 +31,7 @@ def run_one(name, patch, checks):
             return name, {"error": "patch does not apply: " + r.stdout[-200:]}
         env = dict(os.environ, VERIF_REPO=wt, VERIF_OUT=out)
         for c in checks:
-            r = subprocess.run([os.path.join(VERIF, "check"), c], stdout=subprocess.PIPE, stderr=subprocess.STDOUT, text=True, env=env, cwd=VERIF)
+            r = subprocess.run([os.path.join(VERIF, "check"), c, "--tier", tier], stdout=subprocess.PIPE, stderr=subprocess.STDOUT, text=True, env=env, cwd=VERIF)
             keys = [l.strip().split(":")[0] for l in r.stdout.splitlines() if l.startswith("  ") and "|" in l and not l.startswith("  rule")]
             res[c] = {"exit": r.returncode, "violations": r.stdout.count("VIOLATION property="), "keys": keys[:6]}
     finally:
@@ -46,6 +46,7 @@ def main():
     jobs = 6
     only = None
     checks = IDS
+    tier = "quick"
     a = sys.argv[1:]
     while a:
         x = a.pop(0)
@@ -55,6 +56,8 @@ def main():
             only = set(a.pop(0).split(","))
         elif x == "--checks":
             checks = a.pop(0).split(",")
+        elif x == "--tier":
+            tier = a.pop(0)
     items = []
     for d in sorted(os.listdir(os.path.join(VERIF, "seeded"))):
         p = os.path.join(VERIF, "seeded", d, "patch.diff")
@@ -69,11 +72,11 @@ def main():
     os.makedirs("/tmp/wt", exist_ok=True)
     results = {}
     with ThreadPoolExecutor(max_workers=jobs) as ex:
-        for name, res in ex.map(lambda it: run_one(it[0], it[1], checks), items):
+        for name, res in ex.map(lambda it: run_one(it[0], it[1], checks, tier), items):
             results[name] = res
             caught = sorted(c for c, v in res.items() if isinstance(v, dict) and v.get("exit") == 1)
             print("%-24s caught by: %s" % (name, " ".join(caught) or "-"), flush=True)
-    path = os.path.join(VERIF, "seeded", "RESULTS.json")
+    path = os.path.join(VERIF, "seeded", "RESULTS.json" if tier == "quick" else "RESULTS_thorough.json")
     old = {}
     if os.path.exists(path) and only:
         old = json.load(open(path))
